@@ -422,10 +422,15 @@ def run_case(case):
         for f in range(F):
             Q, chosen = [], []
             for pi_, p in enumerate(perms):
-                lp = sp[f, list(p), :] + se[f] + np.log(w)[:, None]
+                # the aligner's own criterion (Drude et al. 2018, Eq. 11-12): sum_n sum_k g_kn lp_kn with g the class softmax of
+                # lp = spatial[p] + spectral (weights not included); the returned posterior is Bayes' rule WITH the weights
+                lp0 = sp[f, list(p), :] + se[f]
+                g = np.exp(lp0 - lp0.max(0, keepdims=True))
+                g = g / g.sum(0, keepdims=True)
+                Q.append(float(np.sum(g * lp0)))
+                lp = lp0 + np.log(w)[:, None]
                 mx = lp.max(0, keepdims=True)
                 lse = mx[0] + np.log(np.exp(lp - mx).sum(0))
-                Q.append(float(lse.sum()))
                 post = np.exp(lp - lse[None])
                 if out is not None and np.allclose(out[f], post, rtol=1e-9, atol=1e-12):
                     chosen.append(pi_ + 1)
